@@ -323,6 +323,37 @@ func (m *Monitor) after(o Op, p *preState, res perfResult) {
 			}
 		}
 	}
+	// ---- per account: an executed inbound bridge call whose EVM part succeeded credits exactly the bridged amounts to the
+	// designated receiver (the sender's own account under the send-call-to memo marker, `to` otherwise) and to nobody else
+	// (the `local` monitor above: `to` is not named under the marker) ----
+	if o.K == "BridgeCallIn" && res.executed && o.Flag {
+		recv := o.To
+		if o.Memo == 2 {
+			recv = o.S
+		}
+		nd := len(w.allDenoms())
+		tot := func(cells []*big.Int, t int) *big.Int {
+			sum := new(big.Int).Set(cells[nd+t])
+			for i, d := range w.allDenoms() {
+				if d.T == t {
+					sum.Add(sum, cells[i])
+				}
+			}
+			return sum
+		}
+		want := map[int]int64{}
+		for _, q := range o.Toks {
+			want[int(q[0])] += q[1]
+		}
+		now := m.userCells(ctx, recv)
+		for t, x := range want {
+			if got := new(big.Int).Sub(tot(now, t), tot(p.user[recv], t)); got.Cmp(big.NewInt(x)) != 0 {
+				m.fail("C04:bridge-call-in:receiver-not-credited", fmt.Sprintf("%s: the designated receiver (account %d: %s) holds %s more of %s after the call, the call bridged in %d",
+					o.Coq(), recv, map[bool]string{true: "the sender's account, memo = send-call-to marker", false: "`to`"}[o.Memo == 2], got, w.Toks[t].Symbol, x))
+				break
+			}
+		}
+	}
 	if o.K == "BridgeCallIn" && res.executed && !o.Flag && o.A != o.B {
 		// failed inbound call: the deposit went to `to` (A); the refund is drawn from the refund address (B)
 		now := m.userCells(ctx, o.B)
